@@ -9,10 +9,13 @@ Payloads (grammar shared with lean/UPVerif/Drv/C08.lean):
   (result PB MB BK (plan n*))                               decision table of CompilerResult
         PB ::= problem | none          MB ::= none | (map (n (to m)|drop)*)      BK ::= none | rev | id
   (compile C <problem>)                                     C ::= grounder | cond | disj | neg | quant | utf | bounded
-                                                                 | inv | traj | undef | pipe-cdn | pipe-qg ...
+                                                                 | inv | traj | undef | pipe-qg | pipe-qcdn | pipe-gc
+                                                                 | t2s | d2p   (on the durative reading of <problem>)
         <problem> is harness/upp.py's wire format (Core/Problem.lean)
-        sent to the model (for C = grounder) as the naming trace observed on the real run:
-        (ground-names (names n*) (actions (a name (inst survived arg*)*)*))
+        sent to the model as an observation of the real run (model_payload):
+        C = grounder:  (ground-names (names n*) (actions (a name ((inst survived arg*)*))*))   the naming requests
+        otherwise:     (declared (names n*) (orig n*))    the declared names of the compiled / original problem
+        not compiled:  (skip status)
 """
 import itertools
 import warnings
@@ -26,13 +29,15 @@ from unified_planning.engines.compilers import (BoundedTypesRemover, CompilersPi
                                                 NegativeConditionsRemover, QuantifiersRemover,
                                                 StateInvariantsRemover, TrajectoryConstraintsRemover,
                                                 UndefinedInitialNumericRemover)
+from unified_planning.engines.compilers.durative_actions_to_processes import DurativeActionToProcesses
+from unified_planning.engines.compilers.timed_to_sequential import TimedToSequential
 from unified_planning.engines.compilers.usertype_fluents_remover import UsertypeFluentsRemover
 from unified_planning.engines.compilers.utils import get_fresh_name
 from unified_planning.engines.results import CompilerResult
 from unified_planning.environment import Environment
-from unified_planning.exceptions import (UPConflictingEffectsException, UPProblemDefinitionError,
-                                         UPUnboundedVariablesError, UPUsageError)
-from unified_planning.model import Fluent, InstantaneousAction, Object, Problem
+from unified_planning.exceptions import (UPConflictingEffectsException, UPExpressionDefinitionError,
+                                         UPProblemDefinitionError, UPUnboundedVariablesError, UPUsageError)
+from unified_planning.model import DurativeAction, EndTiming, Fluent, InstantaneousAction, Object, Problem, StartTiming
 from unified_planning.model.metrics import MinimizeActionCosts
 from unified_planning.model.operators import OperatorKind as OK
 from unified_planning.plans import ActionInstance, SequentialPlan
@@ -62,10 +67,21 @@ ASSUMPTIONS = [
     "non-Boolean fluent of a timed effect (conditional_effects_remover.py:183) and for conditional increase/decrease "
     "effects it cannot split; TrajectoryConstraintsRemover raises UPProblemDefinitionError 'PROBLEM NOT SOLVABLE' "
     "(trajectory_constraints_remover.py:371,389) when a constraint is violated in the initial state; "
-    "NegativeConditionsRemover raises UPProblemDefinitionError for a negated non-fluent, non-equality expression "
-    "(negative_conditions_remover.py walk_not); every compiler rejects kinds outside supported_kind() (not generated: "
+    "NegativeConditionsRemover raises UPExpressionDefinitionError 'Unable to remove negative conditions' for a negation (in "
+    "NNF) of something that is neither a fluent, an equality nor a comparison, e.g. a negated quantifier "
+    "(negative_conditions_remover.py:145); a CompilersPipeline raises UPUsageError '<engine> cannot handle this kind of "
+    "problem' when a stage does not support the kind it is given (compilers_pipeline.py:86); every compiler rejects kinds outside supported_kind() (not generated: "
     "cases are filtered by supports(problem.kind))",
     "ASCII identifiers without whitespace, parentheses or quotes",
+    "divisors are non-zero constants (DESIGN 2.11): Simplifier.walk_div asserts on a static divisor that is 0",
+    "inputs are themselves well-formed by the oracle's predicate (a quantifier over a user type that nothing declares is "
+    "skipped) and have a computable kind (Problem.kind raises ZeroDivisionError when a static fluent with value 0 is a "
+    "divisor: C10's domain, DESIGN 2.11 'divisors are non-zero')",
+    "an action whose effects conflict once a forall effect is expanded / the parameters are instantiated "
+    "(UPConflictingEffectsException out of compile) is an ill-defined input, not a compiler failure; a conditional effect whose "
+    "condition mentions the variable of its own forall cannot be removed by ConditionalEffectsRemover: it is rejected, though with "
+    "UPUnboundedVariablesError (conditional_effects_remover.py:256 add_precondition) instead of the documented "
+    "UPProblemDefinitionError — counted as a documented rejection",
     "the back-conversion clause is exercised with a sequential plan listing one ground instance of every compiled action; for "
     "action-mapping compilers every mapped-back instance must name an action of the ORIGINAL problem with as many actual "
     "parameters as that action has formal ones",
@@ -173,7 +189,8 @@ def gen_result(rng):
         mb = ["map"] + [[n, "drop" if rng.random() < 0.3 else ["to", rng.choice(["o1", "o2", "o3"])]] for n in names
                         if rng.random() < 0.85]
     bk = rng.choice(["none", "none", "none", "rev", "id"])
-    plan = [rng.choice(names) for _ in range(rng.choice([0, 1, 2, 3, 5]))]
+    dom = names if mb == "none" else [e[0] for e in mb[1:]]     # the map-back is total on the plan's actions
+    plan = [rng.choice(dom) for _ in range(rng.choice([0, 1, 2, 3, 5]))] if dom else []
     return ["result", pb, mb, bk, ["plan"] + plan]
 
 
@@ -232,7 +249,40 @@ COMPILERS = OrderedDict([
     ("pipe-qcdn", (_pipe(QuantifiersRemover, ConditionalEffectsRemover, DisjunctiveConditionsRemover,
                          NegativeConditionsRemover), None)),
     ("pipe-gc", (_pipe(Grounder, ConditionalEffectsRemover), None)),
+    # the two temporal compilers run on the durative reading of the problem (see to_durative)
+    ("t2s", (TimedToSequential, CompilationKind.TIMED_TO_SEQUENTIAL)),
+    ("d2p", (DurativeActionToProcesses, CompilationKind.DURATIVE_ACTIONS_TO_PROCESSES)),
 ])
+DURATIVE = ("t2s", "d2p")
+
+
+def to_durative(P):
+    """the same problem with every action turned into a DurativeAction of duration 1 (conditions at start, effects at end)"""
+    env = P.environment
+    Q = Problem(P.name, env)
+    for t in P.user_types:
+        Q._add_user_type(t)
+    for f in P.fluents:
+        d = P.fluents_defaults.get(f)
+        if d is None:
+            Q.add_fluent(f)
+        else:
+            Q.add_fluent(f, default_initial_value=d)
+    for o in P.all_objects:
+        Q.add_object(o)
+    for k, v in P.explicit_initial_values.items():
+        Q.set_initial_value(k, v)
+    for a in P.actions:
+        d = DurativeAction(a.name, OrderedDict((p.name, p.type) for p in a.parameters), env)
+        d.set_fixed_duration(1)
+        for c in a.preconditions:
+            d.add_condition(StartTiming(), c)
+        for e in a.effects:
+            d._add_effect_instance(EndTiming(), e.clone())
+        Q.add_action(d)
+    for g in P.goals:
+        Q.add_goal(g)
+    return Q
 
 
 def rename_expr(e, R):
@@ -296,6 +346,18 @@ def global_names(ps):
             + [a[1] for a in g("actions")])
 
 
+def nonzero_divisors(e):
+    """DESIGN 2.11: divisors are non-zero constants (Simplifier.walk_div asserts, Problem.kind raises otherwise)"""
+    if not isinstance(e, list):
+        return e
+    e = [nonzero_divisors(x) for x in e]
+    if len(e) == 3 and e[0] == "div":
+        d = e[2]
+        if not (isinstance(d, list) and len(d) == 2 and d[0] in ("i", "r") and d[1] not in ("0", "0/1")):
+            e = ["div", e[1], ["i", "2"]]
+    return e
+
+
 def gen_problem(rng, planted=None):
     pg = upp.ProblemGen(rng, undefined=rng.random() < 0.3, invariants=rng.random() < 0.5, metrics=rng.random() < 0.5,
                         quantifiers=rng.random() < 0.6)
@@ -324,7 +386,7 @@ def gen_problem(rng, planted=None):
         R["par"] = {"p0": rng.choice(["a", "b_c", "p0", "x_0"]), "p1": rng.choice(["b", "a_b", "p1", "x"])}
         if R["par"]["p0"] == R["par"]["p1"]:
             R["par"] = {}
-    return rename_problem(ps, R)
+    return nonzero_divisors(rename_problem(ps, R))
 
 
 def gen_planted(rng):
@@ -334,7 +396,42 @@ def gen_planted(rng):
     T = ["user", "T"]
     f = [s + "_f", "bool", [T]]
     fl = lambda o: ["fl", f, o]
-    if k < 0.5:
+    if k < 0.15:
+        # monitoring atoms of the trajectory-constraints remover: hold-<i>, seen-phi-<i>, seen-psi-<i>
+        names = rng.sample(["hold-0", "hold-1", "hold-0_0", "seen-phi-0", "seen-phi-1", "seen-psi-1", s, t], rng.choice([2, 3, 4]))
+        kinds = ["fluent"] * len(names)
+        if rng.random() < 0.4:
+            kinds[0] = "action"
+        refs = [[n, "bool", []] for n, kd in zip(names, kinds) if kd == "fluent"]
+        if not refs:
+            refs = [[u, "bool", []]]
+        e = lambda: ["fl", rng.choice(refs)]
+        traj = []
+        for _ in range(rng.choice([1, 2, 3])):
+            c = rng.choice(["sometime", "sometime", "at-most-once", "sometime-before", "sometime-after"])
+            traj.append([c, e()] if c in ("sometime", "at-most-once") else [c, e(), e()])
+        acts = [["action", n, [], ["pre"], ["effs", ["eff", "assign", e(), ["b", "T"], ["b", "T"], []]]]
+                for n, kd in zip(names, kinds) if kd == "action"]
+        acts.append(["action", u + "_act", [], ["pre"], ["effs"] + [["eff", "assign", ["fl", r], ["b", rng.choice(["T", "F"])], ["b", "T"], []] for r in refs]])
+        return ["problem", "p", ["types"], ["objects"], ["fluents"] + [[r, ["b", "F"]] for r in refs], ["init"],
+                ["actions"] + acts, ["goals", e()], ["traj"] + traj, ["metrics"]]
+    if k < 0.3:
+        # undefined numeric fluents next to things named is_value_defined_<fluent>
+        T = ["user", "T"]
+        num = [[s, ["int", "_", "_"], []], [t, ["real", "_", "_"], [T]]]
+        clash = rng.choice(["is_value_defined_" + s, "is_value_defined_" + t, "is_value_defined_" + s + "_0"])
+        kd = rng.choice(["object", "action", "fluent", "type"])
+        objs = [[u, "T"]] + ([[clash, "T"]] if kd == "object" else [])
+        fls = [[num[0], "_"], [num[1], "_" if rng.random() < 0.7 else ["i", "0"]]] + ([[[clash, "bool", []], ["b", "F"]]] if kd == "fluent" else [])
+        acts = [["action", clash if kd == "action" else "act", [["y", T]], ["pre", ["le", ["fl", num[0]], ["fl", num[1], ["p", "y", T]]]],
+                 ["effs", ["eff", "increase", ["fl", num[0]], ["i", "1"], ["b", "T"], []],
+                  ["eff", "assign", ["fl", num[1], ["p", "y", T]], ["i", "2"], ["b", "T"], []]]]]
+        types = [["T", "_"]] + ([[clash, "T"]] if kd == "type" else [])
+        if kd == "type":
+            objs.append([u + "_1", clash])
+        return ["problem", "p", ["types"] + types, ["objects"] + objs, ["fluents"] + fls, ["init"],
+                ["actions"] + acts, ["goals", ["le", ["i", "1"], ["fl", num[0]]]], ["traj"], ["metrics"]]
+    if k < 0.65:
         # action s(x,y) over objects {t_u, u, t, ...} and action s_t(y): s_t_u twice
         objs = [[t + "_" + u, "T"], [u, "T"], [t, "T"]] + ([[u + "_" + t, "T"]] if rng.random() < 0.5 else [])
         rng.shuffle(objs)
@@ -369,6 +466,11 @@ def build(ps):
     return P, ctx
 
 
+def build_for(cname, ps):
+    P, ctx = build(ps)
+    return (to_durative(P) if cname in DURATIVE else P), ctx
+
+
 def compiler_of(cname):
     cls, kind = COMPILERS[cname]
     return cls(), kind
@@ -380,7 +482,8 @@ def supported(c, P):
     return c.supports(P.kind)
 
 
-REJECTIONS = ("could not be removed without changing the problem", "PROBLEM NOT SOLVABLE", "cannot handle this kind of problem")
+REJECTIONS = ("could not be removed without changing the problem", "PROBLEM NOT SOLVABLE", "cannot handle this kind of problem",
+              "Unable to remove negative conditions from expression")
 
 
 def run_compile(cname, P):
@@ -393,7 +496,7 @@ def run_compile(cname, P):
         return "raised", f"supports: {type(e).__name__}: {e}"
     try:
         res = c.compile(P, kind)
-    except (UPProblemDefinitionError, UPUsageError) as e:
+    except (UPProblemDefinitionError, UPUsageError, UPExpressionDefinitionError) as e:
         msg = str(e)
         if any(r in msg for r in REJECTIONS):
             return "rejected", msg[:80]
@@ -456,6 +559,28 @@ def wellformed(P):
             stack.extend(x.args)
         return None
 
+    def walk_transition(a, ps, where):
+        if isinstance(a, DurativeAction):
+            conds = [c for cl in a.conditions.values() for c in cl]
+            effs = [e for el in a.effects.values() for e in el]
+            conds += [a.duration.lower, a.duration.upper]
+        else:
+            conds = list(getattr(a, "preconditions", []))
+            effs = list(getattr(a, "effects", []))
+        for c in conds:
+            r = walk(c, ps, f"{where} condition")
+            if r:
+                return r
+        for e in effs:
+            for x in (e.fluent, e.value, e.condition):
+                r = walk(x, ps, f"{where} effect")
+                if r:
+                    return r
+            for v in e.forall:
+                if not ty_ok(v.type):
+                    return f"{where}: type of forall variable {v.name} is not declared"
+        return None
+
     for f in P.fluents:
         for t in [f.type] + [p.type for p in f.signature]:
             if not ty_ok(t):
@@ -468,20 +593,14 @@ def wellformed(P):
         for p in a.parameters:
             if not ty_ok(p.type):
                 return f"action {a.name}: type {p.type} of parameter {p.name} is not declared"
-        if not isinstance(a, InstantaneousAction):
-            continue
-        for c in a.preconditions:
-            r = walk(c, ps, f"action {a.name} precondition")
+        r = walk_transition(a, ps, f"action {a.name}")
+        if r:
+            return r
+    for attr in ("processes", "events"):
+        for a in getattr(P, attr, []):
+            r = walk_transition(a, set(a.parameters), f"{attr[:-1]} {a.name}")
             if r:
                 return r
-        for e in a.effects:
-            for x in (e.fluent, e.value, e.condition):
-                r = walk(x, ps, f"action {a.name} effect")
-                if r:
-                    return r
-            for v in e.forall:
-                if not ty_ok(v.type):
-                    return f"action {a.name}: type of forall variable {v.name} is not declared"
     for g in P.goals:
         r = walk(g, None, "goal")
         if r:
@@ -571,9 +690,13 @@ def back_conversion(orig, res):
 
 def check_compile(cname, ps):
     """the property on one (compiler, problem): None | failing clause.  Second value: run status for stats."""
-    P, _ = build(ps)
+    P, _ = build_for(cname, ps)
     if wellformed(P) is not None:
         return None, "input-ill-formed"
+    try:
+        P.kind
+    except Exception:
+        return None, "kind-raises"
     st, res = run_compile(cname, P)
     if st in ("unsupported", "rejected"):
         return None, st
@@ -644,7 +767,8 @@ def shrink(payload):
 
 QUICK = {"fresh": 700, "result": 150, "problems": 110}
 THOROUGH = {"fresh": 12000, "result": 1500, "problems": 1600}
-CHEAP = ["grounder", "cond", "disj", "neg", "quant", "utf", "bounded", "inv", "undef", "pipe-qg", "pipe-qcdn", "pipe-gc", "traj"]
+CHEAP = ["grounder", "cond", "disj", "neg", "quant", "utf", "bounded", "inv", "undef", "pipe-qg", "pipe-qcdn", "pipe-gc", "traj",
+         "t2s", "d2p", "d2p"]
 
 
 def cases(rng, tier):
@@ -672,9 +796,13 @@ def _spread(n, k):
 def _compile_obs(payload):
     """runs the real compiler; -> (status, observation dict)"""
     cname, ps = payload[1], payload[2]
-    P, _ = build(ps)
+    P, _ = build_for(cname, ps)
     if wellformed(P) is not None:
         return "input-ill-formed", None
+    try:
+        P.kind
+    except Exception:
+        return "kind-raises", None
     st, res = run_compile(cname, P)
     if st != "ok":
         return st, res
@@ -735,7 +863,10 @@ def _run(payload):
                 mp, real = _ground_trace(P, res)
                 r = (["acts"] + real + [["unique", _unique(declared)]], mp)
             else:
-                r = (["unique", _unique(declared)], ["declared", ["names"] + declared])
+                orig = set(n for _, n in all_names(P))
+                new = [n for n in declared if n not in orig]
+                r = (["unique", _unique(declared), ["new", str(len(new))]],
+                     ["declared", ["names"] + declared, ["orig"] + [n for _, n in all_names(P)]])
     else:
         raise ValueError(h)
     _cache[key] = r
@@ -779,7 +910,7 @@ def nontrivial(payload, ans):
             # share their joined base
             joins = ["_".join(a[1:]) for a in ans[1:-1]]
             return len(set(joins)) < len(joins) or any(a[0] != "_".join(a[1:]) for a in ans[1:-1])
-        return True
+        return ans[0] == "unique" and ans[2][1] != "0"       # the compiler declared names the input did not have
     return False
 
 
@@ -831,16 +962,39 @@ def oracle(payload):
     return None
 
 
+def _contains_fluent(e):
+    return isinstance(e, list) and bool(e) and (e[0] == "fl" or any(_contains_fluent(x) for x in e[1:]))
+
+
+def _nested_fluent(e):
+    """some fluent application has an argument that itself contains a fluent application"""
+    if not isinstance(e, list) or not e:
+        return False
+    if e[0] == "fl" and any(_contains_fluent(x) for x in e[2:]):
+        return True
+    return any(_nested_fluent(x) for x in e[1:])
+
+
 def known_cause(payload):
+    """id of the listed finding (known_findings.json) whose cause predicate this case satisfies"""
     if payload[0] != "compile":
         return None
     cname, ps = payload[1], payload[2]
     if cname == "utf":
-        # a numeric expression of a metric applies a fluent to the value of a user-typed fluent
+        # a numeric expression of a metric mentions a user-typed fluent
         ms = sexp.dumps(upp.get(ps, "metrics"))
         for ref, _ in upp.get(ps, "fluents"):
-            if isinstance(ref[1], list) and ref[1][0] == "user" and sexp.dumps(["fl", ref]) [:-1] in ms:
+            if isinstance(ref[1], list) and ref[1][0] == "user" and sexp.dumps(["fl", ref])[:-1] in ms:
                 return "C08-utf-metric-usertype-fluent"
+    if cname == "t2s":
+        # some effect of some action is a forall effect
+        for a in upp.get(ps, "actions"):
+            if any(e[5] for e in a[4][1:]):
+                return "C08-t2s-forall-effect"
+    if cname == "d2p":
+        # some action applies a fluent to an argument that contains a fluent application
+        if any(_nested_fluent(a) for a in upp.get(ps, "actions")):
+            return "C08-d2p-nested-fluent-argument"
     return None
 
 
